@@ -6,7 +6,8 @@
 (*   sstart  the readers' operations and the warm-up operations that ran   *)
 (*           alone before them (with the blocks those loaded)              *)
 (*   seg     reader g was released and ran until it parked at a hook       *)
-(*           ("loadChild" / "length") or ended ("done", with its answer);  *)
+(*           ("loadChild" / "length"; "load" = inside the block store)     *)
+(*           or ended ("done", with its answer);                           *)
 (*           the blocks it loaded on the way.  "skipped": the schedule     *)
 (*           named a reader that had already ended; "blocked": the reader  *)
 (*           neither parked nor ended (it waits for another reader)        *)
@@ -19,23 +20,25 @@
 EXTENDS HamtSchedOps, TLC, Json, IOUtils
 LOCAL INSTANCE HamtOps
 Trace == ndJsonDeserialize(IOEnv.TRACE)
-VARIABLES l, D, ops, stk, cache, memo, acc, pred
-tvars == <<l, D, ops, stk, cache, memo, acc, pred>>
+VARIABLES l, D, ops, miss, stk, cache, memo, acc, pred
+tvars == <<l, D, ops, miss, stk, cache, memo, acc, pred>>
+SetOf(q) == {q[k] : k \in 1 .. Len(q)}
 NoD == [S |-> <<>>, DG |-> <<>>, n |-> 0]
 NoPred == [at |-> "none", loads |-> <<>>]
-TInit == l = 1 /\ D = NoD /\ ops = <<>> /\ stk = <<>> /\ cache = {} /\ memo = {} /\ acc = <<>> /\ pred = NoPred
+TInit == l = 1 /\ D = NoD /\ ops = <<>> /\ miss = {} /\ stk = <<>> /\ cache = {} /\ memo = {} /\ acc = <<>> /\ pred = NoPred
 IsEv(e) == l <= Len(Trace) /\ Trace[l].ev = e /\ l' = l + 1
 Cur == Trace[l]
 
 \* the warm-up operations run alone, one after the other
-RECURSIVE WarmRun(_, _, _, _, _, _)
-WarmRun(S, DG, w, c, m, lds) == IF w = <<>> THEN [cache |-> c, memo |-> m, loads |-> lds]
-                                ELSE LET r == RunAlone(S, DG, StackOf(Head(w)), c, m, lds, NoAcc) IN WarmRun(S, DG, Tail(w), r.cache, r.memo, r.loads)
+RECURSIVE WarmRun(_, _, _, _, _, _, _)
+WarmRun(S, DG, M, w, c, m, lds) == IF w = <<>> THEN [cache |-> c, memo |-> m, loads |-> lds]
+                                   ELSE LET r == RunAlone(S, DG, M, StackOf(Head(w)), c, m, lds, NoAcc) IN WarmRun(S, DG, M, Tail(w), r.cache, r.memo, r.loads)
 
-Reset == IsEv("reset") /\ D' = NoD /\ ops' = <<>> /\ stk' = <<>> /\ cache' = {} /\ memo' = {} /\ acc' = <<>> /\ pred' = NoPred
-SDir == IsEv("sdir") /\ D' = [S |-> Cur.S, DG |-> Cur.digits, n |-> Cur.n] /\ UNCHANGED <<ops, stk, cache, memo, acc, pred>>
+Reset == IsEv("reset") /\ D' = NoD /\ ops' = <<>> /\ miss' = {} /\ stk' = <<>> /\ cache' = {} /\ memo' = {} /\ acc' = <<>> /\ pred' = NoPred
+SDir == IsEv("sdir") /\ D' = [S |-> Cur.S, DG |-> Cur.digits, n |-> Cur.n] /\ UNCHANGED <<ops, miss, stk, cache, memo, acc, pred>>
 SStart == /\ IsEv("sstart")
-          /\ LET w == WarmRun(D.S, D.DG, Cur.warm, {}, {}, <<>>) IN
+          /\ miss' = SetOf(Cur.miss) \cup (IF Cur.lg THEN {0} ELSE {})      \* pseudo-class 0: the readers park inside loads too
+          /\ LET w == WarmRun(D.S, D.DG, SetOf(Cur.miss), Cur.warm, {}, {}, <<>>) IN
              /\ cache' = w.cache /\ memo' = w.memo /\ pred' = [at |-> "warm", loads |-> w.loads]
           /\ ops' = Cur.ops
           /\ stk' = [g \in 1 .. Len(Cur.ops) |-> StackOf(Cur.ops[g])]
@@ -44,14 +47,14 @@ SStart == /\ IsEv("sstart")
 Seg == /\ IsEv("seg")
        /\ IF Cur.at \in {"skipped", "blocked"} \/ Cur.g \notin DOMAIN stk
           THEN pred' = NoPred /\ UNCHANGED <<stk, cache, memo, acc>>
-          ELSE LET r == Run(D.S, D.DG, stk[Cur.g], cache, memo, <<>>, acc[Cur.g]) IN
+          ELSE LET r == Run(D.S, D.DG, miss, stk[Cur.g], cache, memo, <<>>, acc[Cur.g]) IN
                /\ stk' = [stk EXCEPT ![Cur.g] = r.stk]
                /\ cache' = r.cache /\ memo' = r.memo
                /\ acc' = [acc EXCEPT ![Cur.g] = r.acc]
                /\ pred' = [at |-> r.at, loads |-> r.loads]
-       /\ UNCHANGED <<D, ops>>
-SEnd == IsEv("send") /\ UNCHANGED <<D, ops, stk, cache, memo, acc, pred>>
-Crash == IsEv("crash") /\ UNCHANGED <<D, ops, stk, cache, memo, acc, pred>>
+       /\ UNCHANGED <<D, ops, miss>>
+SEnd == IsEv("send") /\ UNCHANGED <<D, ops, miss, stk, cache, memo, acc, pred>>
+Crash == IsEv("crash") /\ UNCHANGED <<D, ops, miss, stk, cache, memo, acc, pred>>
 TNext == Reset \/ SDir \/ SStart \/ Seg \/ SEnd \/ Crash \/ (l = Len(Trace) + 1 /\ UNCHANGED tvars)
 TraceSpec == TInit /\ [][TNext]_tvars
 
@@ -62,13 +65,13 @@ NoCrash == ~(Has /\ Ev.ev = "crash")
 Cond_NoPanic == NoCrash /\ ((Has /\ "e" \in DOMAIN Ev) => Ev.e # "panic")
 \* C17: every reader ends, and ends with the answer it has alone
 Cond_C17_SchedComplete == (Has /\ Ev.ev = "send") => Ev.hung = <<>>
-Answer(op) == Alone(D.S, D.DG, op)
+Answer(op) == Alone(D.S, D.DG, miss, op)
 Cond_C17_SchedAnswer == (IsSeg /\ Ev.at = "done" /\ Ev.g \in DOMAIN ops) =>
     LET op == ops[Ev.g]
         a == Answer(op) IN
     CASE op.o = "lookup" -> Ev.r.res = a.res /\ Ev.r.link = a.link
-      [] op.o = "iterate" -> Ev.r.res = "ok" /\ Ev.r.errs = 0 /\ Ev.r.pairs = a.pairs
-      [] op.o = "length" -> Ev.r.res = "ok" /\ Ev.r.n = D.n /\ D.n = CountS(D.S, 1)
+      [] op.o = "iterate" -> Ev.r.res = "ok" /\ Ev.r.errs = a.errs /\ Ev.r.pairs = a.pairs
+      [] op.o = "length" -> Ev.r.res = "ok" /\ D.n = CountS(D.S, 1) /\ Ev.r.n = (IF a.res = "lenerr" THEN 0 ELSE D.n)
 \* beyond C17: the real readers did, segment by segment, what the model does - parked at the predicted hook (or
 \* ended) having loaded exactly the predicted blocks; nothing was skipped, nobody waited for anybody, and the
 \* schedule TLC exported was a complete behaviour of the real node too
